@@ -20,7 +20,8 @@ import os
 
 THEOREMS = ["IstioModel.C16.MonitorTheorems", "IstioModel.C16.RuntimeTheorems", "IstioModel.C16.IndexTheorems",
             "IstioModel.C16.JoinTheorems", "IstioModel.C16.DisciplineTheorems",
-            "IstioModel.C16.JoinModelTheorems"]
+            "IstioModel.C16.JoinModelTheorems", "IstioModel.C16.Registration", "IstioModel.C16.GenTie"]
+GEN = "IstioModel/Generated/C16RegFacts.lean"
 
 F6_FP = "krt:many:key-moves-between-parents:new-parent-first"
 F6_WHAT = ("krt manyCollection loses an output key that moves to another parent input when the new parent is "
@@ -32,6 +33,12 @@ F10_WHAT = ("krt JoinCollection converts and drops the events of one sub-collect
             "without quiescence in between (or is present in two collections when the join starts) subscribers get a duplicate "
             "Add, an Update/Delete of an unknown key or a wrong Old (List/GetKey stay correct)")
 U_OPS = ("ulist", "ulookup", "ustream")
+
+
+def known_ops(stream):
+    """the u-lines on which a difference belongs to the known class of the stream: F10 (join) garbles events
+    only - List / GetKey / Index.Lookup read the live collections and must stay right also on the raced keys"""
+    return ("ustream",) if stream.startswith("join") else U_OPS
 FLAGS = ("f6", "jr")
 
 
@@ -67,7 +74,7 @@ def split_cases(ops):
     return [(s, (starts[j + 1] if j + 1 < len(starts) else len(ops))) for j, s in enumerate(starts)]
 
 
-def scan(ctx, ops_path, impl_path, model_path):
+def scan(ctx, ops_path, impl_path, model_path, stream="krt"):
     """Full comparison. Returns (ncases, nlines, f6_cases, real) where f6_cases are cases whose only
     differences are on u-lines of a flagged case, and real = list of (case_lines, idx, impl, model)."""
     ops = ctx.read_lines(ops_path)
@@ -85,7 +92,7 @@ def scan(ctx, ops_path, impl_path, model_path):
             if a == b:
                 continue
             op = ops[i].split()[0] if ops[i].split() else ""
-            if (flagged and op in U_OPS and not a.startswith("<missing") and not b.startswith("<missing")
+            if (flagged and op in known_ops(stream) and not a.startswith("<missing") and not b.startswith("<missing")
                     and a != "crash" and "crash" not in a.split()[:2]):
                 bad_u.append((i - s, a, b))
             elif bad_real is None:
@@ -104,7 +111,7 @@ def has_real_mismatch(ctx, stream, lines):
     ok, impl, model, log = run_pair(ctx, stream, p, "shrink")
     if not ok:
         return False
-    _, _, _, real = scan(ctx, p, impl, model)
+    _, _, _, real = scan(ctx, p, impl, model, stream)
     return bool(real)
 
 
@@ -169,7 +176,7 @@ def run_stream(ctx, stream, ncases):
             ctx.tie_broken("stream-run:%s" % stream, log, {"ops_file": tag})
             st["agree"] = False
             continue
-        nc, nl, f6_cases, real = scan(ctx, ops, impl, model)
+        nc, nl, f6_cases, real = scan(ctx, ops, impl, model, stream)
         st["cases"] += nc
         st["ops"] += nl
         ctx.account(stream, ops, impl)
@@ -190,7 +197,7 @@ def run_stream(ctx, stream, ncases):
             with open(p, "w") as f:
                 f.write("\n".join(small) + "\n")
             ok2, impl2, model2, _ = run_pair(ctx, stream, p, "min")
-            real2 = scan(ctx, p, impl2, model2)[3] if ok2 else []
+            real2 = scan(ctx, p, impl2, model2, stream)[3] if ok2 else []
             if real2:
                 case_lines, idx, a, b = real2[0]
             fp, what = classify(case_lines[idx], a, b)
@@ -268,10 +275,22 @@ def run(ctx):
         "the known finding F10 applies (stream joinr, checked apart)",
         "quiescence = all goroutines of the testing/synctest bubble durably blocked (Go runtime semantics)",
     ]
+    if not ctx.go_build():
+        return
+    # T-gen: source-level facts (go/ast) about registration / delivery under the collection lock, regenerated from
+    # the checked tree; GenTie.lean proves them by `decide` (a stale table is never used)
+    gen = os.path.join(os.path.dirname(os.path.dirname(os.path.abspath(__file__))), "lean", GEN)
+    os.makedirs(os.path.dirname(gen), exist_ok=True)
+    if os.path.exists(gen):
+        os.remove(gen)
+    rc, log = ctx.harness("table", "regfacts", gen)
+    if rc != 0 or not os.path.exists(gen):
+        ctx.tie_broken("harness-table:regfacts", "the fact extractor did not produce %s: rc=%s %s" % (GEN, rc, log[-2000:]))
+        with open(gen, "w") as f:
+            f.write("namespace IstioModel.Generated.C16\ndef regFacts : List (String × String × String × Bool) := []\n"
+                    "end IstioModel.Generated.C16\n")
     proved = ctx.lean_prove(THEOREMS)
     if not ctx.build_drv():
-        return
-    if not ctx.go_build():
         return
     run_stream(ctx, "krt", ctx.n(2500, 200000))
     run_stream(ctx, "krtf6", ctx.n(400, 8000))
@@ -305,7 +324,7 @@ def replay(ctx, path):
     if not ok:
         ctx.tie_broken("stream-run:%s" % stream, log)
         return
-    nc, nl, f6_cases, real = scan(ctx, p, impl, model)
+    nc, nl, f6_cases, real = scan(ctx, p, impl, model, stream)
     ctx.account(stream, p, impl)
     if f6_cases:
         fp, what = known_class(stream)
